@@ -65,6 +65,9 @@ func c01Library() []*tGraph {
 		{Name: "isolated", V: []*model.Elem{mv("a", "P", d[1]), mv("b", "Q", nil), mv("c", "r", d[3])}, E: []*model.Elem{me("e1", "P", "a", "a", nil)}},
 		{Name: "triangle", V: []*model.Elem{mv("a", "P", d[1]), mv("b", "Q", d[2]), mv("c", "P", d[4])},
 			E: []*model.Elem{me("e1", "r", "a", "b", d[1]), me("e2", "s", "b", "c", d[2]), me("e3", "r", "c", "a", nil), me("e4", "s", "a", "c", d[5])}},
+		{Name: "deepfan", V: []*model.Elem{mv("a", "P", d[1]), mv("b", "Q", d[2]), mv("c", "P", d[4]), mv("d", "Q", d[5])},
+			E: []*model.Elem{me("e1", "r", "a", "b", nil), me("e2", "s", "a", "c", d[1]), me("e3", "r", "b", "c", nil), me("e4", "s", "b", "d", d[2]), me("e5", "r", "c", "d", nil),
+				me("e6", "s", "c", "a", nil), me("e7", "r", "d", "a", d[3]), me("e8", "s", "d", "b", nil)}},
 		{Name: "star", V: []*model.Elem{mv("a", "P", d[2]), mv("b", "P", d[1]), mv("c", "Q", d[1]), mv("d", "Q", d[5])},
 			E: []*model.Elem{me("e1", "r", "a", "b", nil), me("e2", "r", "a", "c", d[4]), me("e3", "s", "a", "d", nil), me("e4", "r", "d", "a", d[3]), me("e5", "s", "b", "b", nil)}},
 	}
@@ -279,7 +282,7 @@ func c01MkCase(alpha []stepDef, idx []int, graphs []int) (fw.Case, bool) {
 	return fw.MkCase("prog", c01Case{Stmts: gq.StmtJSON(stmts), Graphs: graphs, Names: progNames(alpha, idx)}), true
 }
 
-const c01LibN = 8
+const c01LibN = 9
 
 func c01Gen(g *fw.GenCtx) []fw.Case {
 	alpha := c01Alphabet()
@@ -352,6 +355,70 @@ func c01Gen(g *fw.GenCtx) []fw.Case {
 		add([]int{r}, 1)
 		for _, s := range []int{starts[0], rest[0]} {
 			add([]int{r, s}, 1)
+		}
+	}
+	// deep families: k moves with fan-out at every level, marks set at two depths, and a step
+	// that observes per-traveler state (path, marks) at the end - on the graphs with fan-out
+	byName := map[string]int{}
+	for i, s := range alpha {
+		byName[s.Name] = i
+	}
+	ix := func(names ...string) []int {
+		var o []int
+		for _, n := range names {
+			o = append(o, byName[n])
+		}
+		return o
+	}
+	moves := ix("out()", "in()", "both()", "outE()", "bothE()")
+	observers := ix("path()", "select(m1)", "select(m1,m2)", "render(map)", "count()")
+	deepGraphs := []int{0, 7, 8} // indices of deepfan, triangle, star in the library
+	for i, g0 := range c01Library() {
+		switch g0.Name {
+		case "deepfan":
+			deepGraphs[0] = i
+		case "triangle":
+			deepGraphs[1] = i
+		case "star":
+			deepGraphs[2] = i
+		}
+	}
+	addDeep := func(idx []int) {
+		if c, ok := c01MkCase(alpha, idx, []int{deepGraphs[0], deepGraphs[1+len(cases)%2]}); ok {
+			cases = append(cases, c)
+		}
+	}
+	var seqs [][]int
+	var recMoves func(prefix []int)
+	maxMoves := g.Pick(3, 5)
+	recMoves = func(prefix []int) {
+		if len(prefix) > 0 {
+			seqs = append(seqs, append([]int{}, prefix...))
+		}
+		if len(prefix) == maxMoves {
+			return
+		}
+		for _, m := range moves {
+			recMoves(append(prefix, m))
+		}
+	}
+	recMoves(nil)
+	m1, m2 := byName["as(m1)"], byName["as(m2)"]
+	for _, start := range ix("V()", "V(a)") {
+		for _, sq := range seqs {
+			// no marks: the path and the count
+			addDeep(append(append([]int{start}, sq...), byName["path()"]))
+			addDeep(append(append([]int{start}, sq...), byName["count()"]))
+			if len(sq) > 3 && g.Quick() {
+				continue
+			}
+			for _, ob := range observers {
+				// a mark at the start
+				addDeep(append(append([]int{start, m1}, sq...), ob))
+				// a mark after the first move and another after the last one
+				p := append([]int{start, sq[0], m1}, sq[1:]...)
+				addDeep(append(append(p, m2), ob))
+			}
 		}
 	}
 	// random type-directed programs of length 5..9
@@ -527,7 +594,7 @@ func c01Run(w *fw.Worker, env *c01Env, cc c01Case, _ gdbi.GraphDB) fw.Result {
 func init() {
 	fw.Register(&fw.Property{
 		ID:   "C01",
-		Rule: "programs over a 63-instance step alphabet: every sequence that starts with V/E up to length 3 (quick) / 4 (thorough), pruned below an ill-typed prefix, plus sequences with a non-start first step, plus 2000 / 50000 random type-directed programs of length 5-9; each well-typed program runs on 3-4 graphs drawn from an 8-graph hostile library (empty, single, self loop, parallel edges, dangling endpoints, isolated vertices, label=property name, nested data) and 20 / 500 seeded random graphs, compiled WITHOUT optimizers over a force-load decorator, and its canonical row multiset is compared with the reference interpreter; ill-typed programs must fail to compile. Non-trivial = an ill-typed program that was checked for rejection, or a well-typed one whose (untruncated) result is non-empty; distinct = distinct (program, graph list).",
+		Rule: "programs over a 63-instance step alphabet: every sequence that starts with V/E up to length 3 (quick) / 4 (thorough), pruned below an ill-typed prefix, plus sequences with a non-start first step, plus 2000 / 50000 random type-directed programs of length 5-9; plus deep families (every sequence of 1-3 / 1-5 moves from out, in, both, outE, bothE after V() and V(a), with marks set at the start or after the first and after the last move, ending in path(), select, render of a mark or count) on the graphs with fan-out at every level; each well-typed program runs on 3-4 graphs drawn from a 9-graph hostile library (empty, single, self loop, parallel edges, dangling endpoints, isolated vertices, label=property name, nested data) and 20 / 500 seeded random graphs, compiled WITHOUT optimizers over a force-load decorator, and its canonical row multiset is compared with the reference interpreter; ill-typed programs must fail to compile. Non-trivial = an ill-typed program that was checked for rejection, or a well-typed one whose (untruncated) result is non-empty; distinct = distinct (program, graph list).",
 		Assumptions: []string{
 			"where the docs are silent the model follows the literal fully-loaded engine of the pinned tree (DESIGN.md appendix A): V(ids) repeats, moves drop absent endpoints, hasKey counts a null-valued key as present, unwind of a non-list or empty list yields one row with the key set to null, unwind/select append to the path",
 			"not generated because unspecified: label lists on moves from an edge, path() after fields()/unwind(), _to/_from on vertices, nested or mixed include/exclude field lists, JSONPath features beyond dotted paths, -0",
